@@ -116,12 +116,12 @@ UNIT = {
      ]},
 
   # ---------------------------------------------------------------- writer
-  'byte_len': {'kind': 'fn', 'file': X, 'container': None, 'name': 'byte_len', 'props': ['C10', 'C02'],
+  'byte_len': {'kind': 'fn', 'file': X, 'container': None, 'name': 'byte_len', 'props': ['C10', 'C02', 'C09'],
      'ensures': [('bl_range', '1 <= r <= 8'), ('bl_holds', '(n as nat) < pow256(r as nat)')],
      'rewrites': [{'rule': 'R1', 'regex': r'\A\{', 'replace': '{ proof { lemma_byte_len(n); }'}]},
 
   'XRefTable::max_field_widths': {'kind': 'fn', 'file': X, 'container': r'^impl XRefTable$', 'name': 'max_field_widths',
-     'props': ['C10', 'C02'],
+     'props': ['C10', 'C02', 'C09'],
      'ensures': [
         ('mfw_bounds', 'forall|i: int| 0 <= i < self.entries@.len() && usable(self.entries@[i]) ==> '
                        'fields(#[trigger] self.entries@[i]).1 <= r.0 && fields(self.entries@[i]).2 <= r.1'),
@@ -193,7 +193,7 @@ UNIT = {
  'kani': {
    'modules': [{'file': X, 'code': 'kani_xref.rs'}],
    'harnesses': [
-     {'name': 'byte_len_minimal_width', 'fn': 'byte_len', 'file': X, 'props': ['C10'], 'kind': 'complete', 'covers': True,
+     {'name': 'byte_len_minimal_width', 'fn': 'byte_len', 'file': X, 'props': ['C10', 'C09'], 'kind': 'complete', 'covers': True,
       'contract': 'forall n: u64. 1 <= byte_len(n) <= 8, n < 256^byte_len(n), byte_len(n) == 1 or n >= 256^(byte_len(n)-1); never panics'},
      {'name': 'to_be_bytes_tail_value', 'fn': 'XRefTable::write_stream', 'file': X, 'props': ['C10'], 'kind': 'complete', 'covers': True,
       'bound': 'w <= 8 (all), unwind 9',
